@@ -249,6 +249,12 @@ class SThread:
     _pt("tstart", "T%d" % self.n)
     if self.vt is not None:
       raise RuntimeError("threads can only be started once")
+    k = getattr(s, "fail_thread_start", 0)
+    if k:
+      # an armed fault: the k-th attempt to start a thread fails as it does when the process has run out of threads
+      s.fail_thread_start = k - 1
+      if k == 1:
+        raise RuntimeError("can't start new thread")
     nm = s.name_for_thread(self) if hasattr(s, "name_for_thread") else None
     self.vt = s.spawn(nm or ("t%d" % self.n), self.run)
     _res(self.vt.name)
